@@ -87,6 +87,7 @@ def clsStaleGlobal (pre : Sys) : Bool := pre.global ≠ 0
 def isStakingOp : Op → Bool
   | .delegate .. => true
   | .undelegate .. => true
+  | .redelegate .. => true
   | _ => false
 
 /-- a new model is created for a data id that still has an unfinished order of an earlier
